@@ -5,6 +5,7 @@ import (
 	"net"
 	"os"
 	"path/filepath"
+	"strings"
 	"time"
 )
 
@@ -21,7 +22,10 @@ type binReplayer struct {
 func startReplayer(rootArg, cwd, logDir string, allow bool, extra ...string) (*binReplayer, error) {
 	args := []string{"server", "--listen-addr=127.0.0.1:0", "--read-timeout=2m"}
 	args = append(args, extra...)
-	if rootArg != "" {
+	if strings.HasPrefix(rootArg, "positional:") {
+		// `ps3netsrv-go <directory> [flags]`: the drag-and-drop form, the directory is the root
+		args = append([]string{strings.TrimPrefix(rootArg, "positional:")}, args[1:]...)
+	} else if rootArg != "" {
 		args = append(args, "--root="+rootArg)
 	}
 	if allow {
